@@ -1338,6 +1338,13 @@ impl Gen {
         self.tx("bob", SMsg::FmPosCreate { id: Some("b".into()), dur: DAY, receiver: None }, vec![(lp.clone(), 1000 * k)]);
         self.mk_farm("carol", &lp, "uusdc", 1000, 8, Some("f".into()), 1);
         self.mk_farm("carol", &lp, "uom", 1_000_003, 3, Some("g".into()), 8);      // pays only after the inflated span
+        // a second, large farm on another LP denom paying the same token: its funds are what an overpayment would draw on
+        if let Some(q) = self.mk_pool("b", &[("uusdc", 6), ("uusd", 6)], None, Self::std_fees()) {
+            let lq = self.lp_of(&q);
+            self.plain_provide("carol", &q, vec![("uusdc".into(), 1_000_000_000), ("uusd".into(), 1_000_000_000)], None);
+            self.tx("carol", SMsg::FmPosCreate { id: Some("c".into()), dur: DAY, receiver: None }, vec![(lq.clone(), 1000)]);
+            self.mk_farm("owner", &lq, "uusdc", 12_500, 8, Some("h".into()), 1);
+        }
         for _ in 0..6 { self.next_epoch(); }
         self.q_rewards("alice", None);
         self.tx("alice", SMsg::FmPosExpand("u-a".into()), vec![(lp.clone(), 9000 * k)]);
